@@ -19,6 +19,7 @@ import (
 	"github.com/formancehq/ledger/internal/machine"
 	"github.com/formancehq/ledger/internal/machine/script/compiler"
 	"github.com/formancehq/ledger/internal/machine/vm"
+	"github.com/formancehq/ledger/internal/machine/vm/program"
 	"github.com/formancehq/ledger/internal/storage/common"
 	ledgerstore "github.com/formancehq/ledger/internal/storage/ledger"
 	"github.com/formancehq/ledger/pkg/accounts"
@@ -1830,7 +1831,7 @@ func cmdNsLex(args []string) int {
 	r := NewRng(f.Seed)
 	alpha := "AZaz09_-:/ .U1"
 	one := func(s string) {
-		out.Case(L("lex", Q(s)), L(fmt.Sprint(accounts.ValidateAddress(s)), fmt.Sprint(assets.IsValid(s)), fmt.Sprint(machine.ValidateAsset(machine.Asset(s)) == nil)))
+		out.Case(L("lex", Q(s)), L(fmt.Sprint(accounts.ValidateAddress(s)), fmt.Sprint(assets.IsValid(s)), fmt.Sprint(nsCompilesAsAssetLiteral(s))))
 		out.Stats["cases"]++
 		if assets.IsValid(s) || accounts.ValidateAddress(s) {
 			out.Stats["distinct_nontrivial"]++
@@ -1860,6 +1861,24 @@ func cmdNsLex(args []string) int {
 		one(string(b))
 	}
 	return 0
+}
+
+func nsCompilesAsAssetLiteral(s string) bool {
+	ok := false
+	withTimeout(5*time.Second, func() {
+		prog, err := compiler.Compile("send [" + s + " 1] (\n  source = @world\n  destination = @a\n)\n")
+		if err != nil || prog == nil {
+			return
+		}
+		for _, r := range prog.Resources {
+			if c, isC := r.(program.Constant); isC {
+				if a, isA := c.Inner.(machine.Asset); isA && string(a) == s {
+					ok = true
+				}
+			}
+		}
+	})
+	return ok
 }
 
 // nsfront: C27 front-end exploration (NOT modelled): mutated programs and arbitrary byte strings into
